@@ -132,13 +132,21 @@ def judgeDelivered (g : Graph) (idx : Nat) (ob : Json) : Option String :=
 incomplete even when the outputs its current job has reported since the last restart - in whatever order they
 arrived - are counted -/
 def judgeRetainedDelivered (g : Graph) (ops obs : List Json) : Option String :=
-  let rec go (idx : Nat) (acc : List (Key × Nat × String)) (ops obs : List Json) : Option String :=
+  let flowsOf (ob : Json) (k : Key) : List Nat :=
+    match findTask (poolOf ob) k with
+    | some t => ((jArrField? t "fl").getD []).filterMap jNat?
+    | none => []
+  let rec go (idx : Nat) (prev : Json) (acc : List (Key × Nat × String × List Nat)) (ops obs : List Json) :
+      Option String :=
     match obs with
     | [] => none
     | ob :: obs' =>
-      -- (reports count for the pooled incarnation only: forgotten once the instance leaves the pool)
-      let fresh : List (Key × Nat × String) := (deliveredOutputs g ob).map fun e => (e.1, e.2.1, e.2.2.1)
-      let acc := (acc ++ fresh).filter fun e => (findTask (poolOf ob) e.1).isSome
+      -- (reports count for the pooled incarnation only - the one that carried, when the report arrived, flow numbers
+      -- the pooled proxy still carries; forgotten once the instance leaves the pool)
+      let fresh : List (Key × Nat × String × List Nat) :=
+        (deliveredOutputs g ob).map fun e => (e.1, e.2.1, e.2.2.1, flowsOf prev e.1)
+      let acc := (acc ++ fresh).filter fun e =>
+        (findTask (poolOf ob) e.1).isSome && !e.2.2.2.isEmpty && e.2.2.2.all ((flowsOf ob e.1).contains ·)
       let here := firstSome (poolOf ob) fun t =>
         let k := keyOf t
         let st := (jStrField? t "st").getD ""
@@ -147,7 +155,7 @@ def judgeRetainedDelivered (g : Graph) (ops obs : List Json) : Option String :=
         | none => none
         | some td =>
           let sn := (jNatField? t "sn").getD 0
-          let got := (acc.filter fun e => e.1 == k && e.2.1 == sn).map (·.2.2)
+          let got := (acc.filter fun e => e.1 == k && e.2.1 == sn).map (·.2.2.1)
           let outs := strs (fld t "out")
           if !evalCompletion td.completion outs && evalCompletion td.completion (outs ++ got) then
             some s!"retained-delivered: obs {idx}: {showKey k} is {st} and retained as incomplete (outputs {outs}) although its job {sn} has reported {got}: every output of its completion expression was delivered"
@@ -157,8 +165,8 @@ def judgeRetainedDelivered (g : Graph) (ops obs : List Json) : Option String :=
       | none =>
         match ops with
         | [] => none
-        | op :: ops' => go (idx + 1) (if isRestart op then [] else acc) ops' obs'
-  go 0 [] ops obs
+        | op :: ops' => go (idx + 1) ob (if isRestart op then [] else acc) ops' obs'
+  go 0 Json.null [] ops obs
 
 /-! ### restart judge -/
 
@@ -306,7 +314,7 @@ def judgeRestart (idx : Nat) (hist : List Json) (b a : Json) (later : List (Json
             [⟨true, s!"outputs-not-restored: {at_}: {showKey k} ({st}) had completed outputs {(fld t "out").compress}, none after the restart"⟩]
           else if fld u "out" == Json.arr #[] && outAt ≤ (if mergeAt < bornAt then bornAt else mergeAt) then
             [⟨true, s!"new-row-drops-outputs: {at_}: {showKey k} ({st}, flows {(fld t "fl").compress}) has completed nothing since it {if mergeAt < bornAt then "entered the pool with the outputs of its history" else "got a flow merged in"} (outputs {(fld t "out").compress}); none of these outputs after the restart"⟩]
-          else if fld u "out" == Json.arr #[] && (match rowOf rows k (fld t "fl") with
+          else if fld u "out" == Json.arr #[] && (match rowOf ((jArrField? a "ts").getD rows) k (fld t "fl") with
               | some (_ :: _ :: _ :: _ :: _ :: _ :: outs :: _) => outs == Json.arr #[]
               | _ => false) then
             -- a merge of flow numbers the task already carries re-creates its rows too (no change of its flows to see)
